@@ -1,6 +1,7 @@
 package main
 
 import (
+	"math/big"
 	"fmt"
 	"go/types"
 	"strings"
@@ -142,13 +143,29 @@ func checkStopJpeg(p *Program, r *Report) {
 					}
 				}
 			}
+			// ICC complete, stated as a remaining-count test: (Data[13] − c) == 0 with c >= 1
+			if d := a.Sub(b); !strings.Contains(k, ".Type(") {
+				ats := d.Atoms()
+				if len(ats) == 1 {
+					for an := range ats {
+						if strings.Contains(an, ", 13)") && strings.Contains(an, "index(.Data(") {
+							if co, ok := d.LinearCoeff(an); ok && ratAbs(co).Cmp(big.NewRat(1, 1)) == 0 {
+								rest := d.Sub(formRat(co).Mul(formAtom(an)))
+								if cv, isC := rest.Const(); isC && cv.Sign() != 0 && cv.Sign() != co.Sign() {
+									iccAt = ci
+								}
+							}
+						}
+					}
+				}
+			}
 			// ICC complete: <count> == len(chunks) with count >= 1
 			if cv, isC := a.ConstInt(); isC && cv >= 1 && strings.Contains(b.Key(), ", 13)") && strings.Contains(b.Key(), "index(.Data(") {
 				iccAt = ci
 			}
 			if cv, isC := b.ConstInt(); isC && cv >= 1 && strings.Contains(a.Key(), ", 13)") && strings.Contains(a.Key(), "index(.Data(") && !strings.Contains(k, ".Type(") {
-				// total == count form; only when the left side is the chunk total of an earlier segment
-				_ = cv
+				// total == count form (the same fact written the other way round)
+				iccAt = ci
 			}
 		}
 		if sofAt >= 0 && iccAt >= 0 {
@@ -506,6 +523,14 @@ func checkExitAfterCompletion(p *Program, r *Report, short string) {
 						bad = "the completeness test at " + p.InstrPos(b.Instrs[i]) + " does not leave the loop when it holds"
 					}
 					return // checked on this path
+				}
+				// accepted idiom: the iteration ends by recording an ICC error —
+				// the profile is then settled as damaged and completeness is not at
+				// stake on this path (the accessor reports the error from now on)
+				if c, ok := b.Instrs[i].(*ssa.Call); ok {
+					if f := staticCallee(c); methIs(f, ModPath+"/meta", "Data", "SetICCProfileError") {
+						return
+					}
 				}
 			}
 			for _, s := range b.Succs {
